@@ -429,8 +429,11 @@ pub trait QueryBuilder:
                             Some(Token::Unquoted(tok)) if numbered => {
                                 if let Ok(num) = tok.parse::<usize>() {
                                     self.prepare_simple_expr(&values[num - 1], sql);
+                                    tokenizer.next();
+                                } else {
+                                    // not `$n`: the mark is ordinary text, the word is emitted by the next turn
+                                    write!(sql, "{placeholder}").unwrap();
                                 }
-                                tokenizer.next();
                             }
                             _ => {
                                 self.prepare_simple_expr(&values[count], sql);
